@@ -63,6 +63,17 @@ def _observe(job):
     try:
         np.random.seed(seed)
         m = GaussianMultivariate(**config(cfg, cols))
+        if seed % 3 == 1:
+            # a third of the models are instances that were already fitted to, and queried on, a table with another dependence
+            # (every column shuffled on its own): the property speaks of the fitted model, whatever the instance did before
+            old = pd.DataFrame({c: rs.permutation(df[c].to_numpy()) for c in cols})
+            m.fit(old)
+            for f in (m.probability_density, m.log_probability_density, m.cumulative_distribution):
+                try:
+                    f(old.iloc[:3].copy())
+                except Exception:
+                    pass
+            m.sample(2)
         m.fit(df.copy())
         R = m.correlation.to_numpy()
         # query rows: inside the training range, far outside, and training rows
